@@ -1,8 +1,168 @@
+import CV.Model.Backend
 import CV.Driver.Util
-/-! Line protocol for component `backend` (stub; owned by the component's author) -/
-namespace CV.Driver.Backend
-open CV CV.Driver
+/-!
+Line protocol for component `backend`:
 
-def handle (_segs : List (List String)) : String := "bad-op"
+  `backend.<kind> W | init | op | op …`
+
+kinds: `vec`, `smallvec` (inline capacity 4), `cursor-owned` (`Vec<W>`), `cursor-box`
+(`Box<[W]>`), `cursor-mut` (`&mut [W]`), `cursor-slice` (`&[W]`, read-only),
+`rev-cursor`, `rev-cursor-box`, `rev-cursor-mut`, `rev-cursor-slice` (the same wrapped in
+`Reverse`), `iter`, `callback`.
+
+init: `data <ws>` (vec, smallvec) · `at <ws> <pos>` / `begin <ws>` / `end <ws>` (cursors) ·
+`fallible <script>` / `infallible <script>` (iter; script items: hex word, `x` = `Err(())`,
+`_` = a `None` hole of a non-fused iterator) · `fallible <failAt>` / `infallible` (callback).
+
+ops: `read_s` `read_q` `write w` `extend_from_iter ws` `remaining_s` `remaining_q`
+`exhausted_s` `exhausted_q` `space_left` `full` `pos` `seek n` `into_reversed` `roundtrip`
+`raw` `bm_set ws` `bm_truncate n`.
+-/
+namespace CV.Driver.Backend
+open CV CV.Driver CV.Backend
+
+def usizeBits : Nat := 64
+
+def parseUsize (s : String) : Option Nat :=
+  match parseHex s with
+  | some n => if n < 2^usizeBits then some n else none
+  | none => none
+
+def parseWords (W : Nat) (s : String) : Option (List Nat) :=
+  (parseList s).map (fun l => l.map (narrow W))
+
+def parseScript (W : Nat) (s : String) : Option (List (Option Item)) :=
+  if s == "-" then some [] else
+  (s.splitOn ",").foldr (fun t acc =>
+    match acc with
+    | none => none
+    | some l =>
+      if t == "x" then some (some Item.err :: l)
+      else if t == "_" then some (none :: l)
+      else match parseHex t with
+        | some v => some (some (Item.word (narrow W v)) :: l)
+        | none => none) (some [])
+
+def showItem : Item → String
+  | .word w => toHex w
+  | .err => "x"
+
+def showOut : Out → String
+  | .unsupported => "unsupported"
+  | .ok => "ok"
+  | .err => "err"
+  | .full => "full"
+  | .cbErr => "cberr"
+  | .readErr => "readerr"
+  | .word none => "none"
+  | .word (some w) => toHex w
+  | .item none => "none"
+  | .item (some i) => showItem i
+  | .num n => toHex n
+  | .bool a => showBool a
+  | .bools a b => showBool a ++ " " ++ showBool b
+  | .extFull n => "full " ++ toHex n
+  | .extCbErr n => "cberr " ++ toHex n
+  | .dump tag ws n => tag ++ " " ++ showList ws ++ " " ++ toHex n
+  | .dumpItems items => if items.isEmpty then "-" else ",".intercalate (items.map showItem)
+
+/-- `some (backend, "ok")`, or `some (_, "err")` when the constructor refuses -/
+def doInit (kind : String) (W : Nat) (seg : List String) : Option (Backend × String) :=
+  let dummy : Backend := .vec ⟨[]⟩
+  let cursorInit (seg : List String) : Option (Option Cursor) :=
+    match seg with
+    | ["at", ws, p] => do
+        let l ← parseWords W ws
+        let p ← parseUsize p
+        some (Cursor.newAtPos l p)
+    | ["begin", ws] => do
+        let l ← parseWords W ws
+        some (some (Cursor.newAtWriteBeginning l))
+    | ["end", ws] => do
+        let l ← parseWords W ws
+        some (some (Cursor.newAtWriteEnd l))
+    | _ => none
+  let mkCur (writable rev : Bool) : Option (Backend × String) :=
+    match cursorInit seg with
+    | none => none
+    | some none => some (dummy, "err")
+    | some (some c) => some (.cur writable (if rev then .rev ⟨c⟩ else .fwd c), "ok")
+  match kind with
+  | "backend.vec" =>
+    match seg with
+    | ["data", ws] => (parseWords W ws).map (fun l => (.vec ⟨l⟩, "ok"))
+    | _ => none
+  | "backend.smallvec" =>
+    match seg with
+    | ["data", ws] => (parseWords W ws).map (fun l => (.smallvec (SmallVecB.ofList 4 l), "ok"))
+    | _ => none
+  | "backend.cursor-owned" => mkCur true false
+  | "backend.cursor-box" => mkCur true false
+  | "backend.cursor-mut" => mkCur true false
+  | "backend.cursor-slice" => mkCur false false
+  | "backend.rev-cursor" => mkCur true true
+  | "backend.rev-cursor-box" => mkCur true true
+  | "backend.rev-cursor-mut" => mkCur true true
+  | "backend.rev-cursor-slice" => mkCur false true
+  | "backend.iter" =>
+    match seg with
+    | ["fallible", sc] => (parseScript W sc).map (fun l => (.iterF ⟨{ script := l }⟩, "ok"))
+    | ["infallible", sc] => (parseScript W sc).map (fun l => (.iterI ⟨{ script := l }⟩, "ok"))
+    | _ => none
+  | "backend.callback" =>
+    match seg with
+    | ["fallible", fa] => (parseList fa).map (fun l => (.cbF { log := [], calls := 0, failAt := l }, "ok"))
+    | ["infallible"] => some (.cbI { log := [], calls := 0, failAt := [] }, "ok")
+    | _ => none
+  | _ => none
+
+def parseOp (W : Nat) (b : Backend) (seg : List String) : Option Op :=
+  match seg with
+  | ["read_s"] => some .readS
+  | ["read_q"] => some .readQ
+  | ["write", w] => (parseHex w).map (fun v => .write (narrow W v))
+  | ["extend_from_iter", ws] => (parseWords W ws).map .extend
+  | ["remaining_s"] => some .remS
+  | ["remaining_q"] => some .remQ
+  | ["exhausted_s"] => some .exhS
+  | ["exhausted_q"] => some .exhQ
+  | ["space_left"] => some .spaceLeft
+  | ["full"] => some .full
+  | ["pos"] => some .pos
+  | ["seek", n] => (parseUsize n).map .seek
+  | ["into_reversed"] => some .intoReversed
+  | ["roundtrip"] => some .roundtrip
+  | ["raw"] => some .raw
+  | ["bm_set", ws] => (parseWords W ws).map .bmSet
+  | ["bm_truncate", n] =>
+    match parseUsize n, b with
+    | some n, .cur _ s => some (.bmSet (s.inner.buf.take n))
+    | some _, _ => some (.bmSet [])
+    | none, _ => none
+  | _ => none
+
+def runOps (W : Nat) : Backend → List (List String) → List String → List String
+  | _, [], acc => acc.reverse
+  | b, seg :: rest, acc =>
+    match parseOp W b seg with
+    | none => ("bad-op" :: acc).reverse
+    | some op =>
+      match Backend.step b op with
+      | .ok (o, b') => runOps W b' rest (showOut o :: acc)
+      | .error f => (faultStr f :: acc).reverse
+
+def handle (segs : List (List String)) : String :=
+  match segs with
+  | [kind, w] :: init :: ops =>
+    match parseHex w with
+    | some W =>
+      if W == 8 || W == 16 || W == 32 || W == 64 then
+        match doInit kind W init with
+        | some (b, out) =>
+          if out == "err" then "err" else " | ".intercalate (runOps W b ops [out])
+        | none => "bad-op"
+      else "unsupported"
+    | none => "bad-op"
+  | _ => "bad-op"
 
 end CV.Driver.Backend
